@@ -1197,6 +1197,37 @@ type Pool struct {
 	epoch uint64
 }
 
+// Slot holds the per-run copy of one package-level variable of the instrumented
+// library (see PkgVar).
+type Slot struct {
+	epoch uint64
+	p     any
+}
+
+// PkgVar returns the address of this run's copy of a package-level variable.
+// Instrumented code reaches every package-level variable through it, so that
+// library state does not survive from one simulated run into the next (where it
+// would be bound to a dead bubble) and every run starts from the state a fresh
+// process would have. mk builds the initial value exactly as the declaration
+// does.
+func PkgVar[T any](slot *Slot, mk func() *T) *T {
+	rawMu.Lock()
+	if slot.epoch == poolEpoch && slot.p != nil {
+		p := slot.p.(*T)
+		rawMu.Unlock()
+		return p
+	}
+	rawMu.Unlock()
+	v := mk() // may run instrumented code: never under the lock
+	rawMu.Lock()
+	if slot.epoch != poolEpoch || slot.p == nil {
+		slot.p, slot.epoch = v, poolEpoch
+	}
+	p := slot.p.(*T)
+	rawMu.Unlock()
+	return p
+}
+
 // poolEpoch advances with every run: a pool (also a package-level one) starts
 // every run empty, which sync.Pool permits at any time and which keeps objects
 // bound to one bubble (channels, timers) from leaking into the next run.
